@@ -1,2 +1,4 @@
 pub mod c18;
+pub mod c19;
+pub mod c08;
 mod playback_gen;
